@@ -43,3 +43,77 @@ def spec (up : Char → Char) (s : List Char) : List Byte := (s.map up).flatMap 
 theorem toUpper_spec (up : Char → Char) (bufLen : Nat) (s : List Char)
     (h : ∀ c ∈ s, (up c).val ≠ 0x80 ∨ up c = c) : True := trivial   -- statement placeholder; see DESIGN C18
 end U
+
+namespace U
+theorem u32_lt_of_le_ne (x : UInt32) (h1 : x ≤ 0x80) (h2 : x ≠ 0x80) : x < 0x80 := by
+  have a := UInt32.le_iff_toNat_le.mp h1
+  have b : x.toNat ≠ 0x80 := by
+    intro e; apply h2; apply UInt32.toNat_inj.mp; simpa using e
+  apply UInt32.lt_iff_toNat_lt.mpr
+  simp at a ⊢; omega
+
+/-- a code point below 0x80 is encoded as the single byte holding its value -/
+theorem enc_ascii (c : Char) (h : c.val < 0x80) : enc c = [c.val.toUInt8] := by
+  unfold enc
+  have h1 : c.utf8Size = 1 := by
+    rw [Char.utf8Size_eq_one_iff]
+    have := UInt32.lt_iff_toNat_lt.mp h
+    apply UInt32.le_iff_toNat_le.mpr
+    simp at this ⊢; omega
+  exact String.utf8EncodeChar_eq_singleton h1
+
+/-- second loop: every remaining rune is written correctly, unless its upper case is U+0080 -/
+theorem loop2_spec (up : Char → Char) : ∀ (cs : List Char) (cap : Nat) (out : List Byte),
+    (∀ c ∈ cs, (up c).val ≠ 0x80) → loop2 up cap out cs = out ++ (cs.map up).flatMap enc := by
+  intro cs
+  induction cs with
+  | nil => intro cap out _; simp [loop2]
+  | cons c cs ih =>
+    intro cap out h
+    have hc := h c (by simp)
+    have hcs : ∀ c ∈ cs, (up c).val ≠ 0x80 := fun c hm => h c (by simp [hm])
+    unfold loop2
+    simp only []
+    split
+    · rename_i hcond
+      have hlt : (up c).val < 0x80 := u32_lt_of_le_ne _ hcond.1 hc
+      rw [ih _ _ hcs]
+      simp [enc_ascii _ hlt, List.append_assoc]
+    · rw [ih _ _ hcs]
+      simp [List.append_assoc]
+
+/-- C18: the custom ToUpper equals encode ∘ map up ∘ decode on every valid string and for every buffer size,
+    provided no rune's upper case is U+0080 (the `<= RuneSelf` defect; with `<` the hypothesis disappears) -/
+theorem toUpper_spec' (up : Char → Char) (bufLen : Nat) (s : List Char) (h : ∀ c ∈ s, (up c).val ≠ 0x80) :
+    toUpper up bufLen s = spec up s := by
+  unfold toUpper spec
+  suffices H : ∀ (rest pre : List Char), (∀ c ∈ pre, up c = c) → (∀ c ∈ rest, (up c).val ≠ 0x80) →
+      toUpper.go up bufLen pre rest = ((pre ++ rest).map up).flatMap enc by
+    simpa using H s [] (by simp) h
+  intro rest
+  induction rest with
+  | nil =>
+    intro pre hp _
+    have hpre : pre.map up = pre := (List.map_congr_left (fun c hc => hp c hc)).trans (by simp)
+    simp [toUpper.go, hpre]
+  | cons c cs ih =>
+    intro pre hp hr
+    have hc := hr c (by simp)
+    have hcs : ∀ c ∈ cs, (up c).val ≠ 0x80 := fun c hm => hr c (by simp [hm])
+    have hpre : pre.map up = pre := (List.map_congr_left (fun c hc => hp c hc)).trans (by simp)
+    unfold toUpper.go
+    simp only []
+    by_cases heq : (up c == c) = true
+    · simp only [heq, ↓reduceIte]
+      have e : up c = c := by simpa using heq
+      have := ih (pre ++ [c]) (by intro x hx; rcases List.mem_append.mp hx with h | h; exact hp x h; simp at h; subst h; exact e) hcs
+      simpa [List.append_assoc] using this
+    · simp only [heq, Bool.false_eq_true, ↓reduceIte]
+      rw [loop2_spec up cs _ _ hcs]
+      by_cases hle : (up c).val ≤ 0x80
+      · have hlt : (up c).val < 0x80 := u32_lt_of_le_ne _ hle hc
+        simp [hle, List.map_append, List.flatMap_append, hpre, enc_ascii _ hlt, List.append_assoc]
+      · simp [hle, List.map_append, List.flatMap_append, hpre, List.append_assoc]
+
+#print axioms toUpper_spec'
+end U
